@@ -2,13 +2,26 @@ PROP = {
     "id": "C17",
     "coq_targets": ["Properties/C17.vo", "Extract/C17Extract.vo"],
     "properties_file": "Properties/C17.v",
-    "theorems": [],
+    "theorems": ["C17_update_size", "C17_update_roundtrip", "C17_attr_roundtrip", "C17_open_roundtrip",
+                 "C17_notification_roundtrip", "C17_keepalive_roundtrip",
+                 "C17_roundtrip_refuted_asn_truncated", "C17_roundtrip_refuted_long_segment"],
     "allowed_axioms": [],
     "harness": "c17",
     "modelrun": {"name": "c17", "extracted": ["c17_model"], "driver": "ocaml/c17/c17_run.ml"},
-    "tiers": {"quick": {"cases": 12000}, "thorough": {"cases": 200000}},
+    "tiers": {"quick": {"cases": 10000}, "thorough": {"cases": 150000}},
     "search_cases": 40000,
-    "rule": "",
-    "trusted_base": [],
-    "assumptions": [],
+    "rule": "message structures built the way the update sender / FSM build them: packet.PathAttributes on generated "
+            "paths (AS paths up to 600 ASNs per segment and several segments, empty segments, 4-byte ASNs, up to 300 "
+            "communities, 22 large communities, 80 cluster IDs, unknown attributes up to 300 bytes with Optional/Partial "
+            "flags), IPv4 NLRI field or MP_REACH/MP_UNREACH with IPv6 NLRI, up to 1200 prefixes (beyond one message), "
+            "withdrawals, OPEN with the capabilities bio-rd announces, NOTIFICATIONs bio-rd sends, KEEPALIVE, x add-path "
+            "x 2/4-byte ASN; a case is non-trivial when it touches a representability limit (segment > 255, ASN > 65535 "
+            "on a 2-byte session, cluster list > 63, unknown attribute > 255 bytes, Partial flag) or the message is longer "
+            "than 300 bytes; distinct = distinct (options, structure)",
+    "trusted_base": [
+        "extraction (ExtrOcamlBasic only) + ocaml/common/conv.ml + ocaml/c17/c17_run.ml (token parser for the structures)",
+        "Go harness harness/cmd/c17 + harness/bgpx (generator, rendering/parsing of structures, round-trip oracle using packet.Decode)",
+        "modelled, not verified: convert.Uint16Byte/Uint32Byte big-endian, bytes.Buffer writes",
+    ],
+    "assumptions": ["structures carry values of the Go types the serializers assert (as PathAttributes() builds them)"],
 }
